@@ -117,7 +117,7 @@ func vC06Bin[T vNum]() {
 	if op == "Div" && vIsInt[T]() {
 		// known finding: the iterator-path dispatcher drops the kernel's error (layout-dependent outcome)
 		la, lb := vCfgStr("la"), vCfgStr("lb")
-		iterPath := la == "T" || la == "S" || la == "SS" || (form == "TT" && (lb == "T" || lb == "S" || lb == "SS"))
+		iterPath := la == "T" || la == "S" || la == "SS" || (form == "TT" && (lb == "T" || lb == "S" || lb == "SS")) || (form == "TT" && ((la == "F") != (lb == "F")))
 		vAssertKF(vImplies(anyUndef, err != nil), "div0-error", "KF-C06-idiv0-iter", vAnd(anyUndef, iterPath || n == 1))
 		vAssert(vImplies(!anyUndef, err == nil), "no-error")
 		if res == nil {
@@ -173,6 +173,16 @@ func vC06Bin[T vNum]() {
 	// operand before the operation reads it
 	la, lb := vCfgStr("la"), vCfgStr("lb")
 	kfB := mode == "reuseB" && (la == "T" || la == "S" || la == "SS" || lb == "T" || lb == "S" || lb == "SS")
+	// column-major findings (C16): min/max between of column-major operands return a row-major tensor filled in
+	// storage order; a reuse/incr destination whose data order differs from the operand's is re-flagged, not re-laid out
+	anyF := la == "F" || (form == "TT" && lb == "F")
+	kfColMinMax := (op == "MinBetween" || op == "MaxBetween") && anyF
+	kfReuseOrder := (mode == "reuse" || mode == "incr") && ((vCfgStr("ld") == "F") != (la == "F"))
+	kfCol := "KF-C16-minmax"
+	rCol := kfColMinMax
+	if kfReuseOrder {
+		kfCol, rCol = "KF-C16-reuse-order", true
+	}
 	for k := 0; k < n; k++ {
 		x, y := xy(k)
 		def := vBinDefined(op, x, y)
@@ -193,20 +203,20 @@ func vC06Bin[T vNum]() {
 				ok = true // Mod/Pow/MinMax with incr: covered by the kernel-level table (C17)
 			}
 			if fdiv0 {
-				vAssertKF(ok, "incr-value", "KF-C06-fdiv0", vIsZero(y))
+				vAssertKF2(ok, "incr-value", "KF-C06-fdiv0", vIsZero(y), kfCol, rCol)
 			} else {
-				vAssert(ok, "incr-value")
+				vAssertKF(ok, "incr-value", kfCol, rCol)
 			}
 			continue
 		}
 		if fdiv0 {
-			vAssertKF2(vBinMatch(op, g, x, y), "value", "KF-C06-fdiv0", vIsZero(y), "KF-C07-reuseB-iter", kfB)
+			vAssertKF3(vBinMatch(op, g, x, y), "value", "KF-C06-fdiv0", vIsZero(y), "KF-C07-reuseB-iter", kfB, kfCol, rCol)
 		} else if vIsInt[T]() && (op == "Div" || op == "Mod") {
 			if def {
-				vAssertKF(vBinMatch(op, g, x, y), "value", "KF-C07-reuseB-iter", kfB)
+				vAssertKF2(vBinMatch(op, g, x, y), "value", "KF-C07-reuseB-iter", kfB, kfCol, rCol)
 			}
 		} else {
-			vAssertKF(vBinMatch(op, g, x, y), "value", "KF-C07-reuseB-iter", kfB)
+			vAssertKF2(vBinMatch(op, g, x, y), "value", "KF-C07-reuseB-iter", kfB, kfCol, rCol)
 		}
 	}
 	// every tensor other than the designated destination is unchanged
